@@ -15,7 +15,7 @@
      (f) the remainder hashes to the commitment sent after the layer commitments  [the REPAIRED check]
    and that the code before the repair enforced (a)-(e) only, which makes the remainder-after-queries attack a
    theorem about it (C05_adaptive_remainder_accepted_unrepaired). *)
-From Coq Require Import List Arith Bool.
+From Coq Require Import List Arith Bool ZArith.
 From VBase Require Import FieldOps.
 From VModel Require Import Fri.
 From VProofs Require Import FriAccept FriBinding FriExamples.
